@@ -19,6 +19,7 @@ func init() {
 			"'also beyond 65534 entries' (writer, reader and size estimator of the 0xFFFF count convention tabulated and agreeing); plus: Free rejects ids <= 1 and already-free ids before mutating. " +
 			"NOT decided: the input/output specification of Allocate/Free/Release over operation sequences (sets of integers, span arithmetic), rollback restoring exactly the prior state, serialise/re-read preserving the sets — all value-level. Round 3: txPending.ids/alloctx stay index-aligned (alloctx[i] is the allocating txid of ids[i]); hashMap.Allocate hands out only spans of at least n pages (exact path keyed by n, larger-span path tabulated). Round 4: RemoveReadonlyTXID removes exactly one registration per call.",
 		Run: func(c *Ctx) {
+			ruleReloadGoesThroughRead(c, "C09.R15")
 			ruleSpanIndexesTogether(c, "C09.R14")
 			ruleSpanRemovalsPrecedeInsertions(c, "C09.R13") // "reports none only when no such run exists ... identically for both backends"
 			ruleOneRegistrationRemoved(c, "C09.R12") // readers are a multiset: un-registering one reader must not un-register its siblings
